@@ -269,17 +269,37 @@ class Plumbing:
                     record(p, Storage("pickle", eff.file, eff.payload, w, eff.node))
             elif eff.api == "to_csv":
                 df = eff.payload
-                src_dict = None
-                if isinstance(df, ast.Name):
-                    dv = env.get(df.id)
-                    if isinstance(dv, ast.Call) and dv.args:
-                        src_dict = dv.args[0]
-                        dname = src_dict.id if isinstance(src_dict, ast.Name) else None
-                        if isinstance(src_dict, ast.Name):
-                            src_dict = env.get(src_dict.id, src_dict)
+                dname = None
+
+                def resolve_dict(e: ast.expr | None, depth: int = 0) -> ast.Dict | None:
+                    nonlocal dname
+                    if e is None or depth > 4:
+                        return None
+                    if isinstance(e, ast.Name):
+                        if isinstance(env.get(e.id), ast.Dict):
+                            dname = e.id
+                        return resolve_dict(env.get(e.id), depth + 1)
+                    if isinstance(e, ast.Dict):
+                        return e
+                    if isinstance(e, ast.Call) and e.args and (dotted(e.func) or "").split(".")[-1] in ("from_dict", "DataFrame"):
+                        return resolve_dict(e.args[0], depth + 1)
+                    if isinstance(e, ast.Call) and kwarg(e, "data") is not None and (dotted(e.func) or "").split(".")[-1] in ("from_dict", "DataFrame"):
+                        return resolve_dict(kwarg(e, "data"), depth + 1)
+                    return None
+                src_dict = resolve_dict(df)
                 if not isinstance(src_dict, ast.Dict):
                     raise AnalysisError(f"{f.loc(eff.node)}: cannot find the dict literal behind the results DataFrame")
                 for k, v in zip(src_dict.keys, src_dict.values):
+                    if k is None:
+                        # `**{key(d): value(d) for d in <iter>}`: one column per d, like the loop form
+                        if isinstance(v, ast.DictComp) and len(v.generators) == 1 and not v.generators[0].ifs:
+                            gen = v.generators[0]
+                            key = _str_const(v.key, env)
+                            p, w = classify_value(v.value)
+                            if p is not None and key is not None:
+                                record(p, Storage("csv", key, v.value, f"{w} for {src(gen.target)} in {src(gen.iter)}", v))
+                                continue
+                        raise AnalysisError(f"{f.loc(eff.node)}: cannot read the `**` part of the results dict")
                     key = _str_const(k, env)
                     p, w = classify_value(v)
                     if p is not None and key is not None:
